@@ -10,6 +10,7 @@
 import MW.Model.Sign
 import MW.Gen.Sec
 import MW.Lemmas.Sign
+import MW.Lemmas.SignOrder
 import MW.Lemmas.SignVM
 import MW.Lemmas.SignVMEx
 import MW.Lemmas.SignSeq
@@ -102,6 +103,19 @@ theorem wrong_pass_no_signature (E : Engine C A) (env : Env C A) (pass : C.Pass)
     (po : PrevOut A) : ∃ e, signOne E env L p stx i fl po = .error e :=
   signOne_wrong hp hL hne stx i fl po
 
+/-- wrong_pass_error_class (round 5): ORDER of the passphrase check and the input resolution.  With a wrong passphrase, from
+    any consistent lock state, a transaction whose input 0 needs a signature fails in the FIRST iteration of the loop, with
+    the error read off input 0 alone (`wrongErr`: the resolution error of input 0 if it does not resolve - unknown, foreign,
+    spent, bad index -, else script / key for a non-template or foreign-keystore output, else the passphrase error); inputs
+    1.. are never looked at, in particular an unresolvable input BEHIND input 0 does not hide the passphrase error and one IN
+    FRONT wins over it.  Either way nothing is returned (`pass_gate`, second clause): the order decides the error class only. -/
+theorem wrong_pass_error_class (E : Engine C A) (env : Env C A) (pass : C.Pass) (hp : env.params = C.params pass)
+    (L : Lock C) (hL : LockCons pass L) (p : C.Pass) (hne : p ≠ pass) (fl : Flag) (tx : Tx (Witness C))
+    (inp : TxIn (Witness C)) (rest : List (TxIn (Witness C))) (hi : tx.ins = inp :: rest)
+    (hs : fl.base = .single → 0 < tx.outs.length) :
+    (signTx E env L p fl tx).2 = .error (MW.Lemmas.SignOrder.wrongErr env inp) :=
+  MW.Lemmas.SignOrder.signTx_wrong_class hp hL hne hi hs
+
 /-- tie B: the flag strings of today's SignRawTx switch are the six the model parses, and both signing
     entry points still defer ClearPrivKey -/
 theorem gen_tie_flags :
@@ -183,6 +197,19 @@ example : (match (signTx toyEngine toyEnv (Lock.locked toyCrypto) 8 ⟨.all, fal
 example : (match (signTx toyEngine toyEnv (Lock.locked toyCrypto) 7 ⟨.all, false⟩
       { toyTx with ins := [⟨⟨"T", 1⟩, 2^64 - 1, none⟩] }).2 with
     | .error .script => true | _ => false) = true := by decide
+/-- wrong passphrase x unresolvable input (`wrong_pass_error_class` on concrete instances): behind input 0 the passphrase
+    error, in front of it the resolution error; with the RIGHT passphrase the unresolvable input is reported wherever it is -/
+example : MW.Lemmas.SignOrder.wrongErr toyEnv ⟨⟨"T", 0⟩, 0, none⟩ = .pass ∧
+    MW.Lemmas.SignOrder.wrongErr toyEnv ⟨⟨"U", 0⟩, 0, none⟩ = .utxo := by decide
+example : (match (signTx toyEngine toyEnv (Lock.locked toyCrypto) 8 ⟨.none, false⟩
+      { toyTx with ins := toyTx.ins ++ [⟨⟨"U", 0⟩, 0, none⟩] }).2 with
+    | .error .pass => true | _ => false) = true := by decide
+example : (match (signTx toyEngine toyEnv (Lock.locked toyCrypto) 8 ⟨.none, false⟩
+      { toyTx with ins := ⟨⟨"U", 0⟩, 0, none⟩ :: toyTx.ins }).2 with
+    | .error .utxo => true | _ => false) = true := by decide
+example : (match (signTx toyEngine toyEnv (Lock.locked toyCrypto) 7 ⟨.none, false⟩
+      { toyTx with ins := toyTx.ins ++ [⟨⟨"U", 0⟩, 0, none⟩] }).2 with
+    | .error .utxo => true | _ => false) = true := by decide
 
 -- ------------------------------------------------------------------ round 4: the script VM is a MODEL
 
